@@ -944,7 +944,10 @@ class Gen:
         docs = []
         for di in range(rng.choice([1, 1, 2, 3])):
             d, w = {}, {}
-            ext = rng.choice([".json", ".json", ".json.bz2", ".json.gz", ".json.zst", ".json.zip"])
+            # docs/track.rst: ".zip, .bz2, .gz, .tar, .tar.gz, .tgz, .tar.bz2 or zst ... must contain exactly one JSON file with the same name"
+            ext = rng.choice([".json", ".json", ".json", ".json.bz2", ".json.bz2", ".json.gz", ".json.zst", ".json.zip", ".json.tar", ".json.tar.gz", ".json.tgz", ".json.tar.bz2"])
+            if ext.count(".") > 2 or ext.endswith((".tar", ".tgz")):
+                self.features.add("tar-archive-source-file")
             src = "documents-%d-%d%s" % (ci, di, ext)
             d["source-file"] = src
             cnt, cnte = self.pv(rng.choice([1, 1000, 11396505]), "doc_count")
@@ -1000,7 +1003,7 @@ class Gen:
                 "iam": val("includes-action-and-meta-data", False),
                 "count": cnte, "compressed": comp, "uncompressed": unc, "meta": dm or {},
                 "archive": src if ext != ".json" else None,
-                "file": src if ext == ".json" else src[: src.rindex(".")],
+                "file": src[: len(src) - len(ext)] + ".json",
             }
             if ee["iam"]:
                 # "Ignored if includes-action-and-meta-data is true"
